@@ -804,6 +804,21 @@ W_F9_REF = ("natoms 2\ntemperature 300.0\nnew\nshow atomf 1 energy 1 bias 1 cv 1
             "dumpdeps\npos 1 0 0 1.25\nstep\npos 1 0 0 1.5\nstep\necho END\n")
 
 
+# E: the engine-side request of total forces is ONE flag for all variables: a (outputTotalForce on: its own need of total forces
+# survives its biases) and b (grid, outputTotalForce on, abf on it); `tfonrequest 1` (the engine exports total forces only while
+# requested); a step; a deleted by script; two more steps: the request must stay on for b (monitor E1 on every dump) and b / its abf
+# must see what they see in the history in which a never existed
+CV_E = ("colvar {\n  name %s\n  lowerBoundary 0.0\n  upperBoundary 8.0\n  width 0.5\n  outputTotalForce on\n  distance {\n    group1 { atomNumbers %d }\n"
+        "    group2 { atomNumbers %d }\n  }\n}\n")
+ABF_E = "abf {\n  name ab\n  colvars b\n  fullSamples 1\n}\n"
+def _we(with_a):
+    pos = lambda k: "pos 1 0 0 %s\npos 3 0 %s 0\n" % (1.0 + 0.25 * k, 1.5 - 0.125 * k)
+    return ("natoms 4\nsamestep 1\nincludecv 0\ntemperature 300.0\ntfonrequest 1\nnew\nshow atomf 1 energy 1 bias 1 cv 1\neforce 3 0 0.5 0\neforce 4 0 -0.5 0\nconfig EOF\n" +
+            (CV_E % ("a", 1, 2) if with_a else "") + CV_E % ("b", 3, 4) + ABF_E + "EOF\n" + pos(0) + "step\ndumpdeps\n" +
+            ("script cv colvar a delete\ndumpdeps\n" if with_a else "") + pos(1) + "step\ndumpdeps\n" + pos(2) + "step\ndumpdeps\n" + pos(3) + "step\ndumpdeps\necho END\n")
+W_E, W_E_REF = _we(True), _we(False)
+
+
 # N: default names.  Two unnamed harmonic restraints (harmonic1, harmonic2), the older one deleted, a third defined: it must not
 # take the name of the survivor; then the survivor is deleted BY NAME: exactly the third one must remain
 HARM_U = "harmonic {\n  colvars x\n  centers %s\n  forceConstant 2.0\n}\n"
@@ -928,6 +943,24 @@ def replay_witnesses(run, unit, d, tabs, model):
                       "hide_Jacobian_force stays enabled in x (a top-level enable by a1 that nothing counts) and the Jacobian force is still subtracted "
                       "from the walls' force: %s instead of %s" % ([l for l in A if l.startswith("ATOMF")], [l for l in B if l.startswith("ATOMF")]),
                       {"kind": "identity", "scenario": W_F9, "reference": W_F9_REF})
+    # E: a variable with its own total-force need deleted while another variable still needs the engine's total forces
+    rc, o, e = run_scn(unit, d, W_E)
+    rc2, o2, e2 = run_scn(unit, d, W_E_REF)
+    dumps = D.parse_deps_blocks(o.split("\n"))
+    run.count("witness:E", True)
+    if "echo END" not in o or "echo END" not in o2 or len(dumps) != 5 or "CONFIG err=ok" not in o or "SCRIPT err=ok" not in o:
+        run.violation("witness:E:crash", "the witness of the engine-side total-force request does not run (rc=%d): %s" % (rc, (o[-200:] + e[-200:])), {"kind": "scenario", "scenario": W_E})
+    else:
+        run.dist("witness:E:tfreq:" + "".join(str((dm.get("engine") or {}).get("tfreq", "?")) for dm in dumps))
+        bad = [(k, b) for k, dm in enumerate(dumps) for b in D.monitor_engine(tabs, dm)]
+        A, B = last_step_block(o), last_step_block(o2)
+        if bad:
+            run.violation("monitor:E1:delcv", "variables a and b with outputTotalForce on, abf on b, the engine exports total forces only while requested; a step, "
+                          "`cv colvar a delete`, three steps: in dump %d %s" % (bad[0][0], bad[0][1][1]), {"kind": "identity", "scenario": W_E, "reference": W_E_REF})
+        elif A is not None and B is not None and not obs_equal(A, B):
+            run.violation("total-force-request-lost:observables", "variables a and b with outputTotalForce on, abf on b; a deleted by script after one step: the last "
+                          "step differs from the run in which a never existed: %s instead of %s" % ([l for l in A if l not in B][:4], [l for l in B if l not in A][:4]),
+                          {"kind": "identity", "scenario": W_E, "reference": W_E_REF})
     # C: reference by name to a deleted / re-defined variable
     rc, o, e = run_scn(unit, d, W_C)
     run.count("witness:C", True)
